@@ -2794,7 +2794,8 @@ impl Translator {
                     self.collect_locals_stmt(statement, locals, mono);
                 }
             }
-            ExprKind::Match(_, arms) => {
+            ExprKind::Match(scrutinee, arms) => {
+                self.collect_locals_expr(scrutinee, locals, mono);
                 for arm in arms {
                     self.collect_locals_pat(&arm.pat, locals, mono);
                     self.collect_locals_stmt(&arm.stmt, locals, mono);
@@ -2880,7 +2881,8 @@ impl Translator {
                     self.collect_locals_pat(&pat.0, locals, mono);
                     self.collect_locals_expr(expr, locals, mono);
                 }
-                StmtKind::Assign(_, _, expr) => {
+                StmtKind::Assign(lhs, _, expr) => {
+                    self.collect_locals_expr(lhs, locals, mono);
                     self.collect_locals_expr(expr, locals, mono);
                 }
                 StmtKind::Continue | StmtKind::Break => {}
@@ -3024,7 +3026,8 @@ impl Translator {
                     self.collect_captures_stmt(statement, captures, mono);
                 }
             }
-            ExprKind::Match(_, arms) => {
+            ExprKind::Match(scrutinee, arms) => {
+                self.collect_captures_expr(scrutinee, captures, mono);
                 for arm in arms {
                     self.collect_captures_stmt(&arm.stmt, captures, mono);
                 }
@@ -3072,15 +3075,39 @@ impl Translator {
                     self.collect_captures_expr(&arg.val, captures, mono);
                 }
             }
-            ExprKind::AnonymousFunction(..)
-            | ExprKind::MemberAccessLeadingDot(..)
+            // a nested lambda or task needs the outer variables it uses to be present in this frame
+            ExprKind::AnonymousFunction(args, _, body) => {
+                let func_ty = self.statics.solution_of_node(expr.node()).unwrap();
+                let overload_ty = if !func_ty.is_overloaded() {
+                    None
+                } else {
+                    Some(func_ty.subst(mono))
+                };
+                self.collect_captures_nested_func(&overload_ty, args, body, captures, mono);
+            }
+            ExprKind::TaskBlock(body) => {
+                self.collect_captures_nested_func(&None, &[], body, captures, mono);
+            }
+            ExprKind::MemberAccessLeadingDot(..)
             | ExprKind::Nil
             | ExprKind::Int(..)
             | ExprKind::Float(..)
             | ExprKind::Bool(..)
             | ExprKind::Str(..) => {}
-            ExprKind::TaskBlock(_) => unimplemented!(),
         }
+    }
+
+    fn collect_captures_nested_func(
+        &self,
+        overload_ty: &Option<SolvedType>,
+        args: &[ArgMaybeAnnotated],
+        body: &Rc<Expr>,
+        captures: &mut HashSet<AstNode>,
+        mono: &MonomorphEnv,
+    ) {
+        let (_, nested_captures, _) =
+            self.calculate_args_captures_locals(overload_ty, args, body, mono);
+        captures.extend(nested_captures);
     }
 
     fn collect_captures_stmt(
@@ -3106,7 +3133,8 @@ impl Translator {
                 StmtKind::Let(_, _, expr) => {
                     self.collect_captures_expr(expr, locals, mono);
                 }
-                StmtKind::Assign(_, _, expr) => {
+                StmtKind::Assign(lhs, _, expr) => {
+                    self.collect_captures_expr(lhs, locals, mono);
                     self.collect_captures_expr(expr, locals, mono);
                 }
                 StmtKind::Continue | StmtKind::Break => {}
